@@ -139,6 +139,7 @@ func verifRunSchedule(out *verifOut, si, n, npollers int, rng *verifRng, sizes [
 		dupPost    bool
 		fetchTwice bool
 		delayMs    int
+		abortMid   bool // the client hangs up after the first bytes of the response body
 	}
 	plans := make([]cplan, n)
 	withCancels := si%4 == 3
@@ -147,6 +148,18 @@ func verifRunSchedule(out *verifOut, si, n, npollers int, rng *verifRng, sizes [
 			dupPost: rng.intn(8) == 0, fetchTwice: rng.intn(6) == 0, delayMs: rng.intn(20)}
 		if withCancels && rng.intn(10) == 0 {
 			plans[c].cancelAt = time.Duration(1+rng.intn(30)) * time.Millisecond
+		}
+	}
+	// schedules in which responses are produced slowly (the agent uploads them piece by piece) and some clients hang up in
+	// the middle of theirs while the others are still being served
+	slowBodies := si%6 == 1 && n <= 100
+	if slowBodies {
+		for c := range plans {
+			plans[c].respSize = 300000
+			plans[c].dupPost = false
+			if c%3 == 1 {
+				plans[c].abortMid = true
+			}
 		}
 	}
 	unknownPosts := rng.intn(3)
@@ -250,7 +263,28 @@ func verifRunSchedule(out *verifOut, si, n, npollers int, rng *verifRng, sizes [
 			off += l
 		}
 		fmt.Fprintf(&wire, "0\r\nX-Verif-Trailer: %s\r\n\r\n", respTok)
-		req, _ := http.NewRequestWithContext(pctx, "POST", srv.URL+"/agent/response", &wire)
+		var upload io.Reader = &wire
+		if slowBodies {
+			// the same bytes, uploaded in pieces with pauses (a backend that produces its response over some time)
+			pr, pw := io.Pipe()
+			all := append([]byte(nil), wire.Bytes()...)
+			go func() {
+				for off := 0; off < len(all); {
+					l := 8192
+					if off+l > len(all) {
+						l = len(all) - off
+					}
+					if _, err := pw.Write(all[off : off+l]); err != nil {
+						return
+					}
+					off += l
+					time.Sleep(time.Millisecond)
+				}
+				pw.Close()
+			}()
+			upload = pr
+		}
+		req, _ := http.NewRequestWithContext(pctx, "POST", srv.URL+"/agent/response", upload)
 		req.Header.Set("X-Inverting-Proxy-Backend-ID", "verif")
 		req.Header.Set("X-Inverting-Proxy-Request-ID", id)
 		resp, err := agentClient.Do(req)
@@ -350,6 +384,15 @@ func verifRunSchedule(out *verifOut, si, n, npollers int, rng *verifRng, sizes [
 				return
 			}
 			defer resp.Body.Close()
+			if pl.abortMid {
+				// hang up in the middle of the body
+				io.ReadFull(resp.Body, make([]byte, 600))
+				res.Canceled = true
+				res.Err = "aborted by the client after 600 body bytes"
+				cc()
+				tr.CloseIdleConnections()
+				return
+			}
 			b, err := io.ReadAll(resp.Body)
 			if err != nil {
 				res.Err = "read: " + err.Error()
